@@ -102,6 +102,12 @@ Definition cache_clear_wf (f : fn_def) : bool :=
        [ESemi (EMethod (EPath [r']) "clear" [])] None] => String.eqb r r'
   | _ => false
   end.
+(* the reloader is the first field of AssetCache: fields are dropped in declaration order, so the
+   reloader is shut down before the map and the source are dropped *)
+Lemma reloader_is_dropped_first :
+  fn_body Gen.CacheMap.AssetCache_fields = [EPath ["Option<HotReloader>"]; EPath ["AssetMap"]; EPath ["S"]].
+Proof. vm_compute. reflexivity. Qed.
+
 Lemma clear_empties_the_whole_map :
   clears_every_shard Gen.CacheMap.AssetMap_clear = true /\
   clears_its_table Gen.LocalMap.AssetMap_clear = true /\
